@@ -132,7 +132,7 @@ func c13build(k *c13case) (dag.Event, dag.Events) {
 }
 
 func runC13(c *ev.Ctx) {
-	c.Rule = "two generators: (1) the cross product of boundary values {0,1,2,3,2^31-3,2^31-2,2^31-1,2^32-1} for seq and Lamport, epochs {0,cur-1,cur,cur+1,2^31-2}, frames {0,1,2^31-3,2^31-2}, creators {validator, validator, stranger} and parent lists of length 0-3 drawn from 8 parent shapes (one with Lamport 2^32-1, so that max+1 wraps to 0) (fully in thorough, a seeded 1/5 in quick); " +
+	c.Rule = "three generators: (0) one long-lived set of checkers validates 60 simple events while the node behind the reader changes epoch and validator set in between (accept iff epoch and creator match the node state at that moment); (1) the cross product of boundary values {0,1,2,3,2^31-3,2^31-2,2^31-1,2^32-1} for seq and Lamport, epochs {0,cur-1,cur,cur+1,2^31-2}, frames {0,1,2^31-3,2^31-2}, creators {validator, validator, stranger} and parent lists of length 0-3 drawn from 8 parent shapes (one with Lamport 2^32-1, so that max+1 wraps to 0) (fully in thorough, a seeded 1/5 in quick); " +
 		"(2) valid events (random creator, seq, 0-3 other parents, consistent Lamport) with 0-2 single-field faults injected (boundary value in a field, duplicated parent adjacent or not, own-creator parent at index>0, seq=1 with an own-creator parent, missing self-parent, self-parent seq off by one, Lamport +-1, epoch +-1, stranger creator, parents reordered). A third of the cases with parents is repeated with parent events whose IDs were assigned while their Lamport field held another value (the parents' Lamport is what the parent events say, not what their IDs embed). Only accept/reject is compared with the predicate written from the statement. " +
 		"non-trivial = distinct inputs that are rejected for exactly one reason, or accepted"
 	c.Assumptions = []string{"the parents handed to the parents check are the events named by the event's parent IDs (caller contract of Checkers.Validate)", "parents with equal IDs are the same event"}
@@ -176,6 +176,8 @@ func runC13(c *ev.Ctx) {
 			c.Sample(map[string]interface{}{"input": fmt.Sprintf("%+v", *k), "violated_clauses": bad, "checker_error": fmt.Sprint(err)})
 		}
 	}
+	// ---- (0) one long-lived checker while the node's epoch and validator set change
+	c.Parallel(c.Pick(2000, 50000), 0, func(i int) { c13Stateful(c, i) })
 	// ---- (1) cross product
 	bvals := []uint32{0, 1, 2, 3, 1<<31 - 3, 1<<31 - 2, 1<<31 - 1, 1<<32 - 1}
 	lams := []uint32{0, 1, 2, 3, 4, 1<<31 - 3, 1<<31 - 2, 1<<32 - 1}
